@@ -126,7 +126,7 @@ class C12(core.Check):
         return self.dep_codes
 
     # ------------------------------------------------------------ documents
-    def gen_docs(self, r, n, allow_broken=True, allow_includes=False, samename=0.0):
+    def gen_docs(self, r, n, allow_broken=True, allow_includes=False, samename=0.0, force_comments=False):
         """-> docs {id: text}, files {path: text}, paths {id: path of the document}"""
         docs, files, paths = {}, {}, {}
         use_samename = r.random() < samename
@@ -146,7 +146,7 @@ class C12(core.Check):
                 path, text = self.pool[r.randrange(len(self.pool))]
             elif c < 0.85 or not allow_includes:
                 root = r.choice(["map", "map", "layer", "class", "style", "label", "web", "legend", "scalebar"])
-                text = self.gen.document(r, root, comments=r.choice([0.0, 0.3, 0.8]), nl=r.choice(["\n", "\n", "\r\n"]))
+                text = self.gen.document(r, root, comments=0.8 if force_comments else r.choice([0.0, 0.3, 0.8]), nl=r.choice(["\n", "\n", "\r\n"]))
             else:
                 kind = r.choice(["inc_ok", "inc_missing", "inc_deep"])
                 base = f"/simfs/w/inc{i}"
@@ -272,7 +272,9 @@ class C12(core.Check):
 
     def gen_w2(self, seed, s, tier):
         k, r = s("knobs"), s("ops")
-        docs, files, paths = self.gen_docs(s("workload"), k.choice([1, 2, 3]), allow_includes=False, samename=0.2)
+        same_kw = {"include_comments": k.random() < 0.7, "include_position": k.random() < 0.4, "expand_includes": True} if k.random() < 0.5 else None
+        docs, files, paths = self.gen_docs(s("workload"), k.choice([1, 2, 3]), allow_includes=False, samename=0.2,
+                                           force_comments=bool(same_kw and same_kw["include_comments"]))
         files.pop("__twin__", None)
         ids = sorted(docs)
         nthreads = k.choice([2, 2, 3, 3, 4]) if tier == "quick" else k.choice([2, 3, 4, 4, 6, 8, 12, 16])
@@ -292,11 +294,10 @@ class C12(core.Check):
         shared_save = k.random() < 0.35  # every save() of the run writes one and the same path
         if shared_save and weights.get("save"):
             weights["save"] = 6
-        same_kw = {"include_comments": k.random() < 0.7, "include_position": k.random() < 0.4, "expand_includes": True} if k.random() < 0.5 else None
         threads = []
         for t in range(nthreads):
             calls = []
-            for _ in range(k.choice([1, 1, 2, 3, 4]) if nthreads <= 8 else k.choice([1, 2])):
+            for _ in range((k.choice([1, 1, 2, 2, 3]) if tier == "quick" else k.choice([1, 1, 2, 3, 4])) if nthreads <= 8 else k.choice([1, 2])):
                 fn = r.choices(names, [weights[a] for a in names])[0]
                 di = 0 if r.random() < share_bias else r.randrange(len(ids))
                 if paths and fn == "open":
@@ -682,10 +683,14 @@ class C12(core.Check):
 
             expected = []
             est = 0
+            memo = {}  # identical calls (same function, same arguments) have one reference result
             for t, calls in enumerate(case["threads"]):
                 row = []
                 for j, c in enumerate(calls):
-                    res, mutated, n = core.in_fork(lambda c=c, t=t, j=j: one(c, f"t{t}c{j}"))
+                    ck = json.dumps(c, sort_keys=True)
+                    if ck not in memo:
+                        memo[ck] = core.in_fork(lambda c=c, t=t, j=j: one(c, f"t{t}c{j}"))
+                    res, mutated, n = memo[ck]
                     est += n
                     bump("op." + c["fn"])
                     if mutated and not violation:
